@@ -381,6 +381,21 @@ func runCrash(ctx *core.RunCtx) {
 			desc[1] = fmt.Sprintf("%q", args[1].AsString())
 			nargs = 0
 		}
+		if strings.Contains(fn.path, "pack") && g.Chance(2, 3) {
+			// (format, data, position): length prefixes and sizes at their limits
+			fmts := []string{"s", "s1", "s2", "s4", "s8", "s16", "z", "c0", "c1", "c10", "i1", "i3", "i8", "i16", "I16", "j", "J", "T", "f", "d", "n", "<s4", ">s4", "=s", "!8s", "s s", "i4s4", "Xs", "!2 Xi8 s", "s8s8", "zs", "<I8", ">j"}
+			data := []string{"\xff\xff\xff\xff\xff\xff\xff\xff", "\xff\xff\xff\xff\xff\xff\xff\x7f", "\x00\x00\x00\x00\x00\x00\x00\x80", "\xff\xff\xff\xff", "\x05ab", "\x05abcde", "", "\x00", "abc\x00", strings.Repeat("\xff", 16), "\x01\x00\x00\x00\x00\x00\x00\x00a", "\xfe\xff\xff\xff\xff\xff\xff\x7fabc", strings.Repeat("\x80", 9)}
+			args, desc = nil, nil
+			f, d := fmts[g.Choose(len(fmts))], data[g.Choose(len(data))]
+			args = append(args, rt.StringValue(f), rt.StringValue(d))
+			desc = append(desc, fmt.Sprintf("%q", f), fmt.Sprintf("%q", d))
+			if g.Chance(1, 3) {
+				n := int64(g.Choose(16) - 3)
+				args = append(args, rt.IntValue(n))
+				desc = append(desc, fmt.Sprint(n))
+			}
+			nargs = 0
+		}
 		if strings.Contains(fn.path, "utf8") && g.Chance(1, 2) {
 			// code points around every encoding-length boundary
 			cps := []int64{0, 0x7F, 0x80, 0x7FF, 0x800, 0xD800, 0xFFFF, 0x10000, 0x10FFFF, 0x110000, 0x1FFFFF, 0x200000, 0x3FFFFFF, 0x4000000, 0x7FFFFFFF, 0x80000000, -1}
